@@ -25,6 +25,10 @@ checks = [
   "bounded-exhaustive enumeration of structure trees x finite float patterns on the real GeoJSON codec vs an independent structural check of the JSON text",
   "Every tree of the six types (1..3 members, first non-empty) with every rotation of 19 finite float64 patterns is encoded, the text re-read with json.Number and checked for exact RFC 7946 nesting and [x,y] literals, and decoded back bit-exactly; every single non-finite substitution must be rejected.",
   "Trusts encoding/json's tokenizer for re-reading the text and strconv.ParseFloat.", "4/C06"),
+ ("C15", MC, "E1",
+  "bounded-exhaustive enumeration of derived geometry pairs (perturbation patterns, all member permutations, all ring rotations, every single displacement, deletion, duplication, reversal, type change) on the real Similar vs the truth table of the statement, both directions",
+  "For 19 base geometries of all eight types and two tolerances every derived geometry of the listed kinds is compared in both directions; the expected value follows from the statement alone.",
+  "Catalogue members are >= 90 apart so matching is unambiguous; larger geometries are outside the bound.", "4/C15"),
  ("C17", MC, "E1",
   "bounded-exhaustive enumeration of structure trees x finite float patterns on the real WKT encoder vs an independent recursive-descent OGC WKT parser",
   "Every tree of the five types (1..3 members, 1..3 vertices) with every rotation of 19 finite float64 patterns, incl. repeated vertices, is encoded and the text parsed by an independent parser of the OGC grammar to a bit-identical geometry; unsupported types must be rejected.",
